@@ -207,8 +207,9 @@ class Builder:
             ns[i["n"]] = io
             insts[i["n"]] = io
         if style != "class":
-            for n, obj in ns.items():
-                M.add(obj, name=n)
+            order = md.get("order") or list(ns)
+            for n in order:
+                M.add(ns[n], name=n)
         ncs = {}
         for i in md["insts"]:
             io = insts[i["n"]]
@@ -222,7 +223,8 @@ class Builder:
                     else:
                         io.connect(c["p"], v)
         if style == "class":
-            M = h.module(type(mname, (), dict(ns)))
+            order = md.get("order") or list(ns)
+            M = h.module(type(mname, (), {n: ns[n] for n in order}))
         return M
 
     def build(self):
